@@ -84,7 +84,10 @@ class Decode(Harness):
             [R(1, 0, 0, 0)], [R(2, 1, 1, 0)], [R(1, 2, 2, 1)], [R(3, 1, 3, 2)], [R(1, 1, 1, 0, True)],
             [R(2, 1, 1, 0), R(1, 2, 2, 0)], [R(1, 0, 3, 1), R(3, 1, 0, 0)], [R(1, 1, 2, 0, True), R(1, 1, 1, 2)],
         ]
+        # a read name near the 254-character limit (l_read_name is one unsigned byte), followed by a short record
+        sets += [[R(230, 1, 1, 0), R(1, 1, 1, 0)]]
         if tier == "thorough":
+            sets += [[R(219, 0, 1, 0), R(2, 1, 2, 0)], [R(254, 1, 0, 0)]]
             sets += [[R(4, 3, 5, 0)], [R(1, 1, 4, 3)], [R(2, 2, 5, 1), R(1, 0, 1, 0), R(2, 1, 4, 0)],
                      [R(1, 1, 1, 0), R(1, 1, 1, 0), R(1, 1, 1, 0, True)], [R(3, 3, 3, 3), R(3, 3, 3, 3)]]
         out = []
